@@ -80,6 +80,12 @@ type Op struct {
 	// services
 	Services []string `json:"svc,omitempty"`
 	Week     *[7]Day  `json:"week,omitempty"`
+	// Hold (rule-changing admin operations, scenarios with DelayedLoop only):
+	// the filtering module's updates loop does not get to run after this
+	// operation; it runs when the next operation that is not held has been
+	// issued (or before the next query / clock advance), so the requests of
+	// several admin calls reach the module back to back.
+	Hold bool `json:"hold,omitempty"`
 }
 
 // Scenario is one case.
@@ -99,7 +105,12 @@ type Scenario struct {
 	Week         [7]Day   `json:"week"`
 	Clients      []Client `json:"clients"`
 	StartMin     int      `json:"start_min"`
-	Ops          []Op     `json:"ops"`
+	// DelayedLoop: the body of the filtering module's updates loop is run by
+	// the harness (a scheduling choice: the loop goroutine is slow to be
+	// scheduled) instead of by its own goroutine, which makes "several admin
+	// calls arrive before the loop has handled the first" exactly repeatable.
+	DelayedLoop bool `json:"delayed_loop,omitempty"`
+	Ops         []Op `json:"ops"`
 }
 
 var (
@@ -201,6 +212,29 @@ func flipCase(t *rapid.T, s string) string {
 	return string(b)
 }
 
+// genRuleOp draws one operation of the family that makes the filtering module
+// rebuild its matching engines: every admin endpoint that does so.
+func genRuleOp(t *rapid.T, nextID *int64) (op Op) {
+	switch rapid.IntRange(0, 9).Draw(t, "rule_op") {
+	case 0, 1, 2:
+		op = Op{Kind: "set_rules", Rules: genRules(t, false, 5)}
+	case 3, 4:
+		op = Op{Kind: "list_toggle", Allow: rapid.IntRange(0, 2).Draw(t, "tg_allow") == 0, ID: int64(rapid.IntRange(0, 2).Draw(t, "tg_idx")), On: rapid.Bool().Draw(t, "tg_on")}
+	case 5:
+		op = Op{Kind: "list_refresh", Allow: rapid.IntRange(0, 2).Draw(t, "rf_allow") == 0, ID: int64(rapid.IntRange(0, 2).Draw(t, "rf_idx"))}
+		op.Rules = genRules(t, op.Allow, 5)
+	case 6, 7:
+		op = Op{Kind: "list_add", Allow: rapid.IntRange(0, 2).Draw(t, "add_allow") == 0, ID: *nextID}
+		op.Rules = append([]string{"||" + rapid.SampledFrom(ruleDomains).Draw(t, "add_first") + "^"}, genRules(t, op.Allow, 4)...)
+		*nextID++
+	case 8:
+		op = Op{Kind: "list_remove", Allow: rapid.IntRange(0, 2).Draw(t, "rm_allow") == 0, ID: int64(rapid.IntRange(0, 2).Draw(t, "rm_idx"))}
+	default:
+		op = Op{Kind: "filtering", On: rapid.IntRange(0, 3).Draw(t, "flt_on") != 0}
+	}
+	return op
+}
+
 // Gen draws a scenario.
 func Gen(t *rapid.T, tier string) any {
 	sc := &Scenario{}
@@ -233,6 +267,7 @@ func Gen(t *rapid.T, tier string) any {
 		sc.Clients = append(sc.Clients, c)
 	}
 	sc.StartMin = rapid.IntRange(0, 7*1440-1).Draw(t, "start_min")
+	sc.DelayedLoop = rapid.Bool().Draw(t, "delayed_loop")
 	maxOps := 30
 	if tier == "thorough" {
 		maxOps = 70
@@ -241,7 +276,7 @@ func Gen(t *rapid.T, tier string) any {
 	for i, n := 0, rapid.IntRange(4, maxOps).Draw(t, "n_ops"); i < n; i++ {
 		var op Op
 		switch k := rapid.IntRange(0, 99).Draw(t, "kind"); {
-		case k < 62:
+		case k < 58:
 			op = Op{Kind: "query",
 				Name:  flipCase(t, rapid.SampledFrom(queryNames).Draw(t, "qname")),
 				Qtype: rapid.SampledFrom(qtypes).Draw(t, "qtype"),
@@ -251,6 +286,15 @@ func Gen(t *rapid.T, tier string) any {
 			if rapid.IntRange(0, 9).Draw(t, "fault") == 0 {
 				op.Fault = rapid.SampledFrom([]string{"upstream_error", "upstream_timeout", "upstream_servfail", "upstream_slow"}).Draw(t, "fault_kind")
 			}
+		case k < 62:
+			// A burst: several rule-changing admin calls back to back, the
+			// updates loop not running in between (held operations).
+			for j, m := 0, rapid.IntRange(2, 4).Draw(t, "burst_len"); j < m; j++ {
+				b := genRuleOp(t, &nextID)
+				b.Hold = true
+				sc.Ops = append(sc.Ops, b)
+			}
+			continue
 		case k < 69:
 			op = Op{Kind: "set_rules", Rules: genRules(t, false, 5)}
 		case k < 73:
@@ -282,6 +326,9 @@ func Gen(t *rapid.T, tier string) any {
 			op = Op{Kind: "services", Services: rapid.SliceOfNDistinct(rapid.SampledFrom(services), 0, 2, rapid.ID[string]).Draw(t, "new_services")}
 			w := genWeek(t)
 			op.Week = &w
+		}
+		if ruleChanging(op.Kind) {
+			op.Hold = rapid.IntRange(0, 4).Draw(t, "hold") == 0
 		}
 		sc.Ops = append(sc.Ops, op)
 	}
@@ -415,6 +462,40 @@ type runner struct {
 	up   *env.Upstream
 	st   *state
 	next env.UpstreamFault
+	// held is the number of rule-changing admin calls issued since the
+	// updates loop last ran (DelayedLoop scenarios).
+	held int
+}
+
+// ruleChanging says whether an operation of this kind makes the filtering
+// module rebuild its matching engines.
+func ruleChanging(kind string) bool {
+	switch kind {
+	case "set_rules", "list_toggle", "list_refresh", "list_add", "list_remove", "filtering":
+		return true
+	}
+	return false
+}
+
+// settle lets the updates loop run (DelayedLoop scenarios: its body is run
+// here), waits for quiescence and brings the reference model to the last
+// accepted configuration: this is the rule set every later query is judged by.
+func (r *runner) settle() error {
+	if r.sc.DelayedLoop {
+		n := r.n.Filter.VerifDrainInitializer()
+		if r.held > 1 {
+			r.c.Fault("updates_loop_delayed")
+			r.c.Probe("burst_settled")
+			r.c.Eventf("updates loop runs after %d admin calls: %d request(s) handled", r.held, n)
+		}
+	}
+	r.held = 0
+	kernel.Wait()
+	if err := r.st.rebuild(); err != nil {
+		return err
+	}
+	r.c.Fault("live_rule_change")
+	return nil
 }
 
 func listURL(id int64, allow bool) string {
@@ -728,6 +809,13 @@ func (r *runner) lists(allow bool) *[]*mlist {
 
 func (r *runner) apply(op Op) error {
 	st := r.st
+	if r.held > 0 && (op.Kind == "query" || op.Kind == "advance") {
+		// The loop gets to run at the latest now: queries are judged against
+		// the last accepted configuration.
+		if err := r.settle(); err != nil {
+			return err
+		}
+	}
 	switch op.Kind {
 	case "query":
 		return r.query(op)
@@ -822,14 +910,18 @@ func (r *runner) apply(op Op) error {
 	default:
 		return fmt.Errorf("harness: unknown op %q", op.Kind)
 	}
-	kernel.Wait()
-	if op.Kind != "advance" && op.Kind != "mode" && op.Kind != "protection" && op.Kind != "services" {
-		if err := st.rebuild(); err != nil {
-			return err
-		}
-		r.c.Fault("live_rule_change")
+	if !ruleChanging(op.Kind) {
+		kernel.Wait()
+		return nil
 	}
-	return nil
+	r.held++
+	if r.sc.DelayedLoop && op.Hold {
+		// The admin call has returned; the updates loop has not run yet.
+		kernel.Wait()
+		r.c.Probe("held_rule_change")
+		return nil
+	}
+	return r.settle()
 }
 
 // Run executes one scenario.
@@ -851,7 +943,7 @@ func Run(t *testing.T, scAny any, c *kernel.Ctx) error {
 		r.st = st
 		r.up = &env.Upstream{Addr: "sim-upstream:53", Answer: env.DefaultAnswer, Timeout: 3 * time.Second, Slow: 300 * time.Millisecond, Latency: 5 * time.Millisecond,
 			NextFault: func(*dns.Msg) env.UpstreamFault { return r.next }, OnFault: func(k string) { c.Fault(k) }}
-		cfg := &dnsnode.Config{Dir: dir, ListServer: r.ls, Upstream: r.up, UpTimeout: 2 * time.Second}
+		cfg := &dnsnode.Config{Dir: dir, ListServer: r.ls, Upstream: r.up, UpTimeout: 2 * time.Second, NoUpdatesLoop: sc.DelayedLoop}
 		cfg.Filtering = filtering.Config{
 			BlockingMode: filtering.BlockingMode(sc.Mode), BlockedResponseTTL: sc.TTL,
 			ProtectionEnabled: sc.Protection, FilteringEnabled: sc.Filtering, UserRules: sc.User,
@@ -963,7 +1055,7 @@ var _ = sort.Strings
 var Prop = &kernel.Property{
 	ID:    "C01",
 	Level: "exploration",
-	Rule: "seeded histories (rapid): initial rule universe (||d^, |d^, *.d, @@, $important, $dnstype, $client, $denyallow, hosts-style lines) spread over custom rules, block lists and an allow list, blocked services with a weekly pause schedule, persistent clients with own settings; ops = queries (9 types, 6 transports, 4 source addresses, mixed case) interleaved with live changes through the real admin handlers (set_rules, list toggle / refresh with new content / add / remove, blocking mode, protection on/off/timed pause, global filtering flag, services+schedule) and clock advances; " +
+	Rule: "seeded histories (rapid): initial rule universe (||d^, |d^, *.d, @@, $important, $dnstype, $client, $denyallow, hosts-style lines) spread over custom rules, block lists and an allow list, blocked services with a weekly pause schedule, persistent clients with own settings; ops = queries (9 types, 6 transports, 4 source addresses, mixed case) interleaved with live changes through the real admin handlers (set_rules, list toggle / refresh with new content / add / remove, blocking mode, protection on/off/timed pause, global filtering flag, services+schedule) and clock advances; in half of the cases the filtering module's updates loop is scheduled by the harness, and bursts of 2..n rule-changing admin calls (every endpoint of the family) are issued back to back before the loop handles the first, queries being judged against the last accepted configuration once the loop has run; " +
 		"non-trivial = at least one query the reference model says must be blocked AND one that must be forwarded were both executed, and at least one live change or clock advance happened; distinct = distinct scenario digests",
 	Gen: Gen,
 	New: func() any { return &Scenario{} },
@@ -974,6 +1066,6 @@ var Prop = &kernel.Property{
 	Real:        []string{"internal/filtering (DNSFilter, engines, blocked services, list refresh, HTTP handlers)", "internal/dnsforward (HandleBefore, request pipeline, blocking-mode responses, dns_config/protection handlers)", "dnsproxy request path (handleDNSRequest, Resolve, cache, respond*)", "internal/client.Storage", "urlfilter", "internal/schedule"},
 	Stub:        []string{"upstream resolver (logs every question; seeded faults)", "filter-list HTTP server (RoundTripper)", "client sockets (fake conns / response writers)", "query log and statistics (recorders)", "wall clock (synctest)"},
 	Assumptions: []string{"urlfilter's matching of one rule set against one host name is trusted (the reference model owns separate engines built from the scenario's rule text)", "blocked-services rule table is read through the real API and trusted as data", "with filtering off for a client the statement does not say whether blocked services still apply: only coherence is asserted there", "with the DNS cache on, a repeated allowed query may legitimately be served without a new upstream exchange"},
-	FaultKinds:  []string{"upstream_error", "upstream_timeout", "upstream_servfail", "upstream_slow", "live_rule_change", "clock_advance", "protection_pause"},
-	ProbeNames:  []string{"blocked_query", "forwarded_query", "blocked_by_service", "blocked_by_hosts_rule", "allowed_by_rule", "protection_off_query", "filtering_off_query", "pause_deadline_crossed", "unspecified_case", "aaaa_disabled_query", "op_skipped_no_list", "list_content_refreshed", "served_from_cache"},
+	FaultKinds:  []string{"upstream_error", "upstream_timeout", "upstream_servfail", "upstream_slow", "live_rule_change", "clock_advance", "protection_pause", "updates_loop_delayed"},
+	ProbeNames:  []string{"blocked_query", "forwarded_query", "blocked_by_service", "blocked_by_hosts_rule", "allowed_by_rule", "protection_off_query", "filtering_off_query", "pause_deadline_crossed", "unspecified_case", "aaaa_disabled_query", "op_skipped_no_list", "list_content_refreshed", "served_from_cache", "held_rule_change", "burst_settled"},
 }
